@@ -71,7 +71,7 @@ def hook(rd, e, st, ctx):
             idx = _index(l)
             lv = rd.lvalue(base, st, ctx)
             d = dims_of(base['t']['s'])
-            if idx is not None and d is not None and lv and lv[0] in ('field', 'local'):
+            if idx is not None and d is not None and lv and lv[0] in ('field', 'local', 'localmember'):
                 M = _load(rd, lv, st, base, ctx)
                 if M is not None:
                     i, j = (idx[0], idx[1]) if len(idx) == 2 else (idx[0], 0)
@@ -79,6 +79,25 @@ def hook(rd, e, st, ctx):
                         val = rd.arith(e['op'][:-1], M[i, j], val, {'t': {}, 'k': 'Bin', 'op': e['op'], 'l': e['lhs'], 'r': e['lhs']})
                     M2 = sp.Matrix(M)
                     M2[i, j] = val
+                    _save(rd, lv, st, sp.ImmutableMatrix(M2))
+                    return [(val, st)]
+        # block store  M.block<r,c>(i,j) = sub
+        if l.get('k') == 'MCall' and l.get('m') == 'block' and len(l.get('args', [])) in (2, 4):
+            base = strip_casts(l['obj'])
+            lv = rd.lvalue(base, st, ctx)
+            bd = block_dims(l)
+            ij = [const_value(a) for a in l['args'][:2]]
+            if lv and lv[0] in ('field', 'local', 'localmember') and bd is not None and None not in ij and isinstance(val, sp.MatrixBase) and dims_of(base['t']['s']):
+                M = _load(rd, lv, st, base, ctx)
+                if M is not None:
+                    M2 = sp.Matrix(M)
+                    i0, j0 = int(ij[0]), int(ij[1])
+                    if e['op'] == '+=':
+                        M2[i0:i0 + bd[0], j0:j0 + bd[1]] = M2[i0:i0 + bd[0], j0:j0 + bd[1]] + sp.Matrix(val)
+                    elif e['op'] == '/=':
+                        pass
+                    else:
+                        M2[i0:i0 + bd[0], j0:j0 + bd[1]] = sp.Matrix(val)
                     _save(rd, lv, st, sp.ImmutableMatrix(M2))
                     return [(val, st)]
         # column/row store  M.col(k) = vec
@@ -131,6 +150,17 @@ def hook(rd, e, st, ctx):
             for ax, n in (('UnitX', 0), ('UnitY', 1), ('UnitZ', 2)):
                 if fq.endswith('::' + ax):
                     return [(sp.ImmutableMatrix(d[0], 1, lambda i, j: 1 if i == n else 0), st)]
+    if k == 'MCall' and not e.get('inrepo') and e.get('m') == 'block' and len(e.get('args', [])) in (2, 4):
+        bd = block_dims(e)
+        ij = [const_value(a) for a in e['args'][:2]]
+        if bd is not None and None not in ij:
+            out = []
+            for (ov, s2) in rd.ev(e['obj'], st, ctx):
+                if not isinstance(ov, sp.MatrixBase):
+                    return NotImplemented
+                i0, j0 = int(ij[0]), int(ij[1])
+                out.append((sp.ImmutableMatrix(ov[i0:i0 + bd[0], j0:j0 + bd[1]]), s2))
+            return out
     if k == 'MCall' and not e.get('inrepo'):
         name = e.get('m')
         if name in ('transpose', 'col', 'row', 'head', 'norm', 'dot', 'cross', 'determinant', 'trace', 'x', 'y', 'z') or name in ('array', 'matrix', 'eval'):
@@ -168,6 +198,17 @@ def hook(rd, e, st, ctx):
     return NotImplemented
 
 
+def block_dims(e):
+    m = re.search(r'Eigen::Block<.*, (\d+), (\d+), (?:true|false)>', e['t']['s'])
+    if m:
+        return int(m.group(1)), int(m.group(2))
+    if len(e.get('args', [])) == 4:
+        a, b = const_value(e['args'][2]), const_value(e['args'][3])
+        if a is not None and b is not None:
+            return int(a), int(b)
+    return None
+
+
 def _method(name, M, args):
     if name == 'transpose':
         return sp.ImmutableMatrix(M.T)
@@ -197,6 +238,14 @@ def _method(name, M, args):
 def _load(rd, lv, st, base, ctx):
     if lv[0] == 'field':
         return get_matrix(rd, lv[1], st, base['t']['s'])
+    if lv[0] == 'localmember':
+        cur = st.locals.get(lv[1])
+        for name in lv[2]:
+            cur = cur.get(name) if isinstance(cur, dict) else None
+        if isinstance(cur, sp.MatrixBase):
+            return cur
+        d = dims_of(base['t']['s'])
+        return fresh('.'.join(lv[2]), d[0], d[1]) if d else None
     v = st.locals.get(lv[1])
     if isinstance(v, sp.MatrixBase):
         return v
@@ -209,6 +258,9 @@ def _load(rd, lv, st, base, ctx):
 
 
 def _save(rd, lv, st, M):
+    if lv[0] == 'localmember':
+        rd.assign(lv, M, st)
+        return
     if lv[0] == 'field':
         st.fields[lv[1]] = M
         st.effects.append(('write', lv[1], M))
